@@ -367,6 +367,11 @@ fn run_history(spec: &StateSpec, ticks: &[Vec<Cand>], legacy: bool, workers: usi
                 ctx.hit("reach.history_stopped_at_commit_error");
                 break;
             }
+            Err(p) if cfg!(feature = "delta_validate") && (p.contains("DELTA MISMATCH") || p.contains("state_root mismatch")) => {
+                // in-crate validator (monitor, not oracle): stop this history here
+                ctx.hit("reach.incrate_validator_disagreement");
+                break;
+            }
             Err(p) => return Outcome::violation("commit_panicked", p),
         };
         ctx.count("time.ticks", 1);
